@@ -14,6 +14,16 @@ CHECKS["C09"] = dict(category="exploration", technique="exhaustive small-scope e
 CHECKS["C17"] = dict(category="exploration", technique="exhaustive pair enumeration + Hypothesis perturbation pairs; oracle: equality implies equal hash and equal truth table on the finite universe",
     text="All ordered pairs of independently built vocabulary leaves, of depth<=2 expressions over a 23-leaf confusable core, and of 1 200 two-level expressions over 3 leaves are compared: equal pairs must hash alike and evaluate alike on every universe point varying the slots they read; commutativity of & and | and the never-equal rule for map are enumerated; Hypothesis adds perturbed deeper pairs.",
     note="Behavioural equality is decided on the finite universe of C09 (and pool points for generated pairs), not on all conceivable points.", design="3/C17")
+HIST_NOTE = "Trusts the reference model (tfverif/model.py, ~150 lines of list manipulation written from the docs) and the reference query evaluator; histories are bounded in length and drawn over small pools; user callables come from a fixed registry."
+def hist(pid, text, technique="model-based differential testing: Hypothesis-generated operation histories run in lock-step on a reference model and 4 real configurations", level="exploration"):
+    CHECKS[pid] = dict(category=level, technique=technique, text=text, note=HIST_NOTE, design="3/" + pid)
+hist("C01", "Generated histories (all write operations, reindex, reopen, in/out-of-order and duplicate times) are applied to a reference model and in lock-step to {CSV, memory} x {auto_index on, off}; every probe compares search (sorted and unsorted), count, contains, get and select - through the database and through Measurement handles - with the model's matches, so index-served and scan-served answers are both checked against ground truth, not only against each other. Random search over histories x queries x configurations is the level the quantifier allows; failures are delta-debugged to a minimal history.")
+hist("C02", "Removal-heavy generated histories on the same lock-step machinery: the returned count, the survivors as an ordered list, byte-for-byte unchanged CSV files for removals that match nothing, and every later read are compared with the reference model on all four configurations.")
+hist("C03", "Update-heavy generated histories: every combination of 1-3 argument slots (static or callable, unset lists naming keys set in the same call), database / handle / update_all routes; return value and full ordered contents are compared with a reference model that implements the documented merge semantics.")
+hist("C06", "Every sequence of <= 4 (quick) / <= 5 (thorough) operations over a 14-operation alphabet (incl. raising operations) is enumerated depth-first on MemoryStorage with auto_index on and off, and long generated histories run on all four configurations; after every step each index flagged valid is compared with an index rebuilt from storage on ~95 queries and every getter, and the validity rules (in-order insert keeps valid, read leaves valid) are asserted.", technique="exhaustive bounded enumeration of operation sequences with state cloning + Hypothesis-generated histories; oracle: live index == index rebuilt from storage")
+hist("C07", "Getter-heavy generated histories: all exploration getters, len, iteration and all() - database and Measurement-handle versions, every kind of measurement filter and tag_keys selection - are compared with the reference model with and without a valid index on CSV and memory.")
+hist("C10", "Every operation in a generated history is routed at random through the database with a measurement argument, a fresh handle, or a handle captured earlier (before drops/resets); both routes are compared with the model restricted to that measurement and the complete contents (all measurements) after every step.")
+hist("C11", "Generated histories in which ~40% of the operations are made to raise at a generated position (non-Point at position k of insert_multiple, callable failing or returning an invalid value on the j-th selected point, invalid static arguments, bad reads); after each, contents must equal the model before the call, every valid index must equal a rebuild, and the history continues under the ordinary oracle.", technique="fault injection at generated positions inside Hypothesis-generated histories, model-based oracle + index-rebuild oracle", level="fault_enumeration")
 NA = {}
 checks = []
 for p in props:
